@@ -112,8 +112,12 @@ Verdict(c) ==
              \* slab of construction REF in the wall and roof cases, the stack under test in the slab case
              Rslab == IF c.tilt = "BOTTOM" THEN R ELSE RRef
              dt == Add(Qt(3, 10), Mul(LambdaGnd, Add(Add(RsiDown, Rslab), Rse)))
-             \* exposed perimeter 14 * 33 / 42 = 11 ; B' = 12 / (11 / 2)
-             B == Div(AreaP, Div(Qt(11, 1), Qt(2, 1)))
+             \* exposed perimeter: the floor perimeter 14 times the exposed share of the 42 m2 of side walls: south and north
+             \* (ground, 24) and east (outside air, 9) always; west (9) when it separates this conditioned space from a
+             \* space that is not conditioned (an adiabatic side, or a partition seen from a non-conditioned space, is not exposed)
+             \* 14 * 33 / 42 = 11 or 14 * 42 / 42 = 14 ; B' = 12 / (P / 2)
+             P == IF c.next # "none" /\ Cond(c.this) /\ ~Cond(c.next) THEN Qt(14, 1) ELSE Qt(11, 1)
+             B == Div(AreaP, Div(P, Qt(2, 1)))
              dprime == IF c.perim THEN Mul(Qt(15, 10), Sub(LambdaGnd, LambdaIns)) ELSE Qt(0, 1)
              D == IF c.perim THEN Qt(1, 1) ELSE Qt(0, 1)
              dpsi == Mul(Div(Mul(Qt(-1, 1), LambdaGnd), Pi),
